@@ -99,8 +99,16 @@ def creq(q):
 # values
 
 
-def to_np(v):
-    return np.array([[complex(*v[0]), complex(*v[1])], [complex(*v[2]), complex(*v[3])]])
+SPARSE_FORMATS = ["csr_array", "csc_array", "coo_array", "csr_matrix"]
+
+
+def to_np(v, fmt="numpy"):
+    a = np.array([[complex(*v[0]), complex(*v[1])], [complex(*v[2]), complex(*v[3])]])
+    if fmt and fmt != "numpy":
+        import scipy.sparse as sp
+
+        return getattr(sp, fmt)(a)
+    return a
 
 
 def from_impl(x):
@@ -111,6 +119,8 @@ def from_impl(x):
         return "zero"
     if x is one:
         return "one"
+    if hasattr(x, "toarray") and hasattr(x, "format"):  # scipy sparse array / matrix
+        x = x.toarray()
     a = np.asarray(x)
     if a.shape != (2, 2):
         raise TypeError("unexpected value %r" % (x,))
@@ -240,8 +250,11 @@ def gen_case(rng, kind=None):
                 heads[f]["shape"][0] += 1
         if what == "ninf" and heads[f]["names"] == names:
             heads[f]["names"] = list(range(nparam + 1)) if names == list(range(nparam)) else names
+    # value type: numpy arrays or scipy sparse arrays / matrices (genuinely complex entries)
+    fmt = "numpy" if rng.random() < 0.6 else rng.choice(SPARSE_FORMATS)
     return dict(
         kind=kind,
+        fmt=fmt,
         nparam=nparam,
         dims=dims,
         heads=heads,
@@ -261,14 +274,14 @@ class Raiser:
     classes = {"RuntimeError": RuntimeError, "ValueError": ValueError, "KeyboardInterrupt": KeyboardInterrupt}
 
 
-def impl_value(v):
+def impl_value(v, fmt="numpy"):
     from pymablock.series import zero, one
 
     if v == "zero":
         return zero
     if v == "one":
         return one
-    return to_np(v)
+    return to_np(v, fmt)
 
 
 def build_factors(case, log):
@@ -284,12 +297,12 @@ def build_factors(case, log):
             v = _table.get(idx, "zero")
             if isinstance(v, list) and v and v[0] == "raise":
                 raise Raiser.classes[v[1]]("injected")
-            return impl_value(v)
+            return impl_value(v, case.get("fmt", "numpy"))
 
         factors.append(
             BlockSeries(
                 eval=ev,
-                data={tuple(k): impl_value(v) for k, v in dat},
+                data={tuple(k): impl_value(v, case.get("fmt", "numpy")) for k, v in dat},
                 shape=tuple(case["heads"][f]["shape"]),
                 n_infinite=case["heads"][f]["ninf"],
                 dimension_names=names_of_codes(case["heads"][f]["names"], case["heads"][f]["ninf"]),
@@ -507,6 +520,7 @@ def tie_cauchydot(ctx, ncases=None):
         outs.append(out)
         key = "%s/f%d/p%d/%s" % (case["kind"], len(case["tables"]), case["nparam"], "herm" if case["herm"] else "plain")
         dist[key] = dist.get(key, 0) + 1
+        dist["fmt:" + case["fmt"]] = dist.get("fmt:" + case["fmt"], 0) + 1
         if "construct_error" in out:
             dist["construct_ValueError"] = dist.get("construct_ValueError", 0) + 1
         # product_by_order called directly (operator=None) on fresh copies of the first two factors
